@@ -50,3 +50,88 @@ Example limits_negative_clock : limits (-1) 0 0 0 = (0, 0).
 Proof. reflexivity. Qed.
 Example limits_example : limits 60000000000 0 0 0 = (750000000, 2250000000).
 Proof. reflexivity. Qed.
+
+(** * From the numbers on the go line to the limits (uci.go + timectrl.go) *)
+
+Lemma wrap64_range z : -9223372036854775808 <= wrap64 z <= 9223372036854775807.
+Proof. unfold wrap64. pose proof (Z.mod_pos_bound (z + 9223372036854775808) 18446744073709551616 ltac:(lia)). lia. Qed.
+
+Lemma wrap64_le_nonneg z : 0 <= z -> wrap64 z <= z.
+Proof.
+  intros H. unfold wrap64.
+  pose proof (Z.mod_le (z + 9223372036854775808) 18446744073709551616 ltac:(lia) ltac:(lia)). lia.
+Qed.
+
+(** every clock value the driver accepts (strconv.Atoi: 0 .. 2^63 - 1 milliseconds; the product with
+    10^6 may wrap) and every moves-to-go value: the divisor is positive and the hard limit, as a number of
+    nanoseconds, never exceeds the TRUE time on the clock (10^6 * ms), wrapped Duration or not *)
+Theorem go_limits_hard_le_clock : forall wms bms moves c,
+  0 <= wms <= 9223372036854775807 -> 0 <= bms <= 9223372036854775807 ->
+  let '(soft, hard) := go_limits wms bms moves c in
+  let remaining_ms := if c =? 1 then bms else wms in
+  soft <= 1000000 * remaining_ms /\ hard <= 1000000 * remaining_ms.
+Proof.
+  intros wms bms moves c Hw Hb. unfold go_limits, limits.
+  set (rms := if c =? 1 then bms else wms).
+  assert (Hrms : 0 <= rms <= 9223372036854775807) by (unfold rms; destruct (c =? 1); lia).
+  replace (if c =? 1 then go_duration bms else go_duration wms) with (go_duration rms)
+    by (unfold rms; destruct (c =? 1); reflexivity).
+  set (mv := if 0 <? moves then Z.min moves max_moves_to_go + 1 else 40).
+  assert (Hmv : 2 <= mv <= 2147483648).
+  { unfold mv, max_moves_to_go. destruct (0 <? moves) eqn:E; [apply Z.ltb_lt in E; lia|lia]. }
+  rewrite (wrap64_small (2 * mv)) by lia.
+  pose proof (wrap64_range (1000000 * rms)) as Hrange.
+  pose proof (wrap64_le_nonneg (1000000 * rms) ltac:(lia)) as Hle.
+  fold (go_duration rms) in Hrange, Hle.
+  set (r := go_duration rms) in *.
+  set (soft := Z.quot r (2 * mv)).
+  destruct (Z_le_gt_dec 0 r) as [Hr|Hr].
+  - assert (Hs : 0 <= soft /\ 2 * mv * soft <= r).
+    { unfold soft. rewrite Z.quot_div_nonneg by lia. split; [apply Z.div_pos; lia|apply Z.mul_div_le; lia]. }
+    destruct Hs as [Hs0 Hs1].
+    assert (Hs2 : 4 * soft <= r) by nia.
+    rewrite (wrap64_small (3 * soft)) by lia. split; lia.
+  - (* the product wrapped to a negative Duration: soft and hard are <= 0, the timer fires at once *)
+    assert (Hs : soft <= 0 /\ r <= 2 * mv * soft).
+    { assert (Hq : soft = - ((- r) / (2 * mv))).
+      { unfold soft. replace r with (- (- r)) at 1 by lia. rewrite Z.quot_opp_l by lia.
+        rewrite Z.quot_div_nonneg by lia. reflexivity. }
+      pose proof (Z.div_pos (- r) (2 * mv) ltac:(lia) ltac:(lia)) as Hp.
+      pose proof (Z.mul_div_le (- r) (2 * mv) ltac:(lia)) as Hm.
+      set (q := (- r) / (2 * mv)) in *. split; [lia|]. rewrite Hq. nia. }
+    destruct Hs as [Hs0 Hs1].
+    assert (Hs2 : r <= 4 * soft) by nia.
+    rewrite (wrap64_small (3 * soft)) by lia. split; lia.
+Qed.
+Print Assumptions go_limits_hard_le_clock.
+
+(** clocks up to 9223372036854 ms (292 years) do not wrap: then [go_limits] is [limits] on the exact
+    number of nanoseconds and [limits_hard_le_clock] applies as it stands *)
+Lemma go_duration_exact ms : 0 <= ms <= 9223372036854 -> go_duration ms = 1000000 * ms.
+Proof. intros H. unfold go_duration. apply wrap64_small. lia. Qed.
+
+Theorem go_limits_exact : forall wms bms moves c,
+  0 <= wms <= 9223372036854 -> 0 <= bms <= 9223372036854 ->
+  let '(soft, hard) := go_limits wms bms moves c in
+  let remaining_ms := if c =? 1 then bms else wms in
+  0 <= soft /\ soft <= hard /\ hard <= 1000000 * remaining_ms.
+Proof.
+  intros wms bms moves c Hw Hb. unfold go_limits. rewrite !go_duration_exact by assumption.
+  pose proof (limits_hard_le_clock (1000000 * wms) (1000000 * bms) moves c ltac:(lia) ltac:(lia)) as H.
+  destruct (limits (1000000 * wms) (1000000 * bms) moves c) as [soft hard].
+  destruct (c =? 1); exact H.
+Qed.
+
+(** what the wrap does (not a violation of the clause: the limit only gets shorter): the first clock value
+    that wraps gives a negative Duration - the hard timer fires at once and the search is halted after
+    depth 1 - and 18446744073710 ms wraps to 448 384 ns *)
+Example go_duration_wraps : go_duration 9223372036855 = -9223372036854551616
+  /\ go_limits 9223372036855 0 0 0 = (-115292150460681895, -345876451382045685)
+  /\ go_limits 18446744073710 0 0 0 = (5604, 16812).
+Proof. repeat split; reflexivity. Qed.
+
+(** a negative number on the go line (a GUI reporting a flag that has already fallen) is accepted by
+    Atoi; "time left on the clock" is then not a time and the hard limit -37500 ns exceeds -1 ms (both are in the
+    past: the timer fires at once) - outside the clause *)
+Example go_limits_negative_clock : go_limits (-1) 0 0 0 = (-12500, -37500).
+Proof. reflexivity. Qed.
